@@ -102,7 +102,7 @@ func shaS(b []byte) string {
 func classify(r *GenResult) string {
 	switch {
 	case r.TimedOut:
-		return "hang"
+		return "watchdog"
 	case r.Exit == 0:
 		return "ok"
 	case r.Exit == 97:
@@ -251,6 +251,12 @@ func (x *Executor) RunGen(dir string, op Op, tagPrefix string) (*Observation, er
 	x.mu.Unlock()
 	if o.ExitClass == "infra" {
 		return nil, Infra("lox-sim reported an infrastructure error: %s", o.Stderr)
+	}
+	if o.ExitClass == "watchdog" {
+		// A real endless loop in lox-sim ends with the tick budget (exit 97)
+		// long before the wall-clock watchdog; reaching the watchdog means the
+		// machine is overloaded or a subprocess stalled. Never a violation.
+		return nil, Infra("wall-clock watchdog expired for %s in %s (not a verdict about lox)", op.String(), dir)
 	}
 	return o, nil
 }
